@@ -16,6 +16,7 @@ import Driver.Registry
 import Driver.System
 import Driver.Endpoint
 import Driver.Mailbox
+import Driver.Callee
 
 open Panrpc
 
@@ -112,6 +113,7 @@ def handle (st : St) (line : String) : St × String :=
     | (none, ans, false) => (st, ans)
   | "epq" :: rest => (st, Driver.Ep.epQuery rest)
   | "mb" :: rest => (st, Driver.Mbx.mailboxQuery rest)
+  | "ce" :: rest => (st, Driver.CeQ.calleeQuery rest)
   | "sys" :: rest =>
     let (s', ans) := SysQ.sysHandle st.sys rest
     ({ st with sys := s', dead := st.dead || ans.startsWith "rejected" }, ans)
